@@ -40,17 +40,20 @@ def merge_case(draw, max_probes=4, exclude_f13=True, max_nc=6, max_ns=25, big_te
     first = None
     excluded = 0
     wm_kind = draw(st.sampled_from([None, None, None, 'lower', 'upper', 'diag', 'mixed']))
+    mixed_tdtype = draw(st.booleans())      # float32 and float64 template files side by side
     for i in range(k):
         big = big_templates and draw(st.integers(0, 7)) == 0
         spec = draw(D.dataset_spec(merge_ready=True, dense=True, naming='ks', raw=False,
                                    max_nc=max_nc, max_nt=4, max_ns=max_ns,
-                                   min_nt=33 if big else 2, big_nt=70 if big else None))
+                                   min_nt=33 if big else 2, big_nt=70 if big else None,
+                                   row_vectors=True))
         if first is None:
             first = spec
         else:
             spec['nsw'] = first['nsw']
             spec['rate'] = first['rate']
-            spec['templates']['dtype'] = first['templates']['dtype']
+            if not mixed_tdtype:
+                spec['templates']['dtype'] = first['templates']['dtype']
         # the model behind the merged dataset squeezes: keep every dimension >= 2
         spec['wmi_file'] = bool(spec['wm'] and draw(st.booleans()))
         spec['wm_kind'] = wm_kind if wm_kind != 'mixed' else \
@@ -62,6 +65,13 @@ def merge_case(draw, max_probes=4, exclude_f13=True, max_nc=6, max_ns=25, big_te
             spec['pos'] = [[x + 7.0, y] for x, y in spec['pos']]
             excluded += 1
         probes.append(spec)
+    if k >= 2 and draw(st.integers(0, 3)) == 0:
+        # sessions recorded one after the other: every later probe starts after the first one's
+        # last spike (the later ones still interleave among themselves)
+        t_end = max(probes[0]['samples']) + 1 + draw(st.integers(0, 3))
+        for p in probes[1:]:
+            p['samples'] = [s + t_end for s in p['samples']]
+            p['n_raw'] = p['n_raw'] + t_end
     # index tables can only be stacked if they have the same width in every probe
     wf = min(p['pcf']['nloc'] for p in probes)
     wt = min(p['tf']['nloc'] for p in probes)
